@@ -37,6 +37,20 @@ fn main() {
     if args[0] == "--replay" {
         std::process::exit(replay::replay_file(args.get(1).map(|s| s.as_str()).unwrap_or("")));
     }
+    if args[0] == "--bench" {
+        let text = args.get(1).cloned().unwrap_or_default();
+        let n: u32 = args.get(2).and_then(|s| s.parse().ok()).unwrap_or(10000);
+        let forms = conform::parse_forms(&text).unwrap();
+        let mut im = conform::Impl::new();
+        let t = Instant::now();
+        for _ in 0..n {
+            for f in &forms {
+                let _ = im.eval(f);
+            }
+        }
+        println!("{:.1} us per pass ({} forms)", t.elapsed().as_secs_f64() * 1e6 / n as f64, forms.len());
+        std::process::exit(0);
+    }
     if args[0] == "--session" {
         for l in replay::run_text(args.get(1).map(|s| s.as_str()).unwrap_or(""), true) {
             println!("{}", l);
@@ -65,6 +79,7 @@ fn main() {
     let mk = |p: &'static str| Ctx { prop: p, tier, seed, start: Instant::now() };
     let code = match prop.as_str() {
         "C01" => props::c01::run(&mk("C01")),
+        "C02" => props::c02::run(&mk("C02")),
         "C08" => props::c08::run(&mk("C08")),
         "C09" => props::c09::run(&mk("C09")),
         "C10" => props::c10::run(&mk("C10")),
